@@ -80,6 +80,52 @@ def direct_roundtrip(j):
     return None
 
 
+def long_lived_options(ctx, hist):
+    """the same round trip through ONE options object that lives as long as a session does: messages are decoded before the custom control,
+    filter and credential types are added to its choice lists, and messages using those types afterwards"""
+    import custom_types as CT
+
+    rng = ctx.rng
+    out = []
+    for rounds in range(ctx.scale(6, 60)):
+        opts = M.PackingOptions()
+        order = ["control", "filter", "auth"]
+        rng.shuffle(order)
+        stages = [None] + order           # stage i: register order[i-1] first
+        registered = set()
+        for st in stages:
+            if st == "control":
+                opts.control.choices.append(CT.CustomControl)
+            elif st == "filter":
+                opts.filter.choices.append(CT.CustomFilter)
+            elif st == "auth":
+                opts.authentication.choices.append(CT.CustomAuth)
+            if st:
+                registered.add(st)
+            for _ in range(ctx.scale(25, 60)):
+                j = gen.g_msg(rng, depth=rng.choice([1, 2, 3]), allow_custom=True)
+                s_ = json.dumps(j)
+                uses = {"control": '"k": "custom", "crit"' in s_, "filter": '"k": "custom", "v"' in s_ and j["op"]["k"] == "searchReq",
+                        "auth": j["op"]["k"] == "bindReq" and j["op"]["cred"]["k"] == "custom"}
+                if any(uses[k] and k not in registered for k in uses):
+                    continue              # uses a type this options object does not know yet
+                hist["long-lived-options:" + ("custom" if any(uses.values()) else "builtin")] += 1
+                m = C.msg_from_json(j)
+                data = m.pack(opts)
+                try:
+                    back = M.unpack_ldap_message(ASN1Reader(data), opts)
+                except BaseException as e:  # noqa: BLE001
+                    out.append({"key": None, "what": f"decoding the library's own encoding raised {type(e).__name__} with an options object that decoded "
+                                "other messages before the custom type was registered", "msg": j, "hex": data.hex(), "registered": sorted(registered)})
+                    continue
+                if strip_raw(C.msg_to_json(back)) != strip_raw(j) or type(back) is not type(m):
+                    out.append({"key": None, "what": "decode(encode(m)) differs from m with an options object that decoded other messages before the "
+                                "custom type was registered", "msg": j, "decoded": C.msg_to_json(back), "hex": data.hex(), "registered": sorted(registered)})
+                if len(out) >= 5:
+                    return out
+    return out
+
+
 def generate(ctx, n):
     msgs = corpus_messages()
     for _ in range(n):
@@ -100,6 +146,7 @@ def run(ctx):
         v = direct_roundtrip(j)
         if v:
             violations.append(v)
+    violations += long_lived_options(ctx, hist)
     sample_n = ctx.scale(3000, 30000)
     sub = msgs[:sample_n]
     encs = []
